@@ -375,20 +375,19 @@ impl<'a> Body for StateBody<'a> {
         o.counters.push(("slot_writes".to_string(), saves));
         o.counters.push(("max_alternatives".to_string(), depth as u64));
         if !viol.is_empty() {
-            if hops > symx_api::HISTORY_CAP {
-                o.not_covered = Some(std::format!("state mismatch after more than {} operations (history not recorded): {}", symx_api::HISTORY_CAP, viol[0]));
-            } else {
-                o.fail = Some(Fail {
-                    what: viol[0].clone(),
-                    op: "state_history".to_string(),
-                    pattern: std::format!("{}\u{1}{}", nsaves, hist),
-                    casei: false,
-                    limit: None,
-                    arg: 0,
-                    observed: "MISMATCH".to_string(),
-                    expected: "state equals the whole-state-copy model after every operation".to_string(),
-                });
-            }
+            // the operation history (replayed through the State wrapper of the hook build) and
+            // the pattern itself (replayed as a real search under a snapshot observer)
+            let too_long = hops > symx_api::HISTORY_CAP;
+            o.fail = Some(Fail {
+                what: viol[0].clone(),
+                op: if too_long { "state_observed".to_string() } else { "state_history".to_string() },
+                pattern: std::format!("{}\u{1}{}\u{1}{}", nsaves, if too_long { "" } else { &hist[..] }, self.b.src),
+                casei: false,
+                limit: None,
+                arg: 0,
+                observed: "MISMATCH".to_string(),
+                expected: "state equals the whole-state-copy model after every operation".to_string(),
+            });
         }
         o
     }
@@ -950,6 +949,24 @@ pub fn process_c04(cfg: &RunCfg, item: &Item, rep: &mut PatReport) {
             if rep.status.starts_with("rejected") {
                 // common syntax accepted by the regex crate but rejected here
                 rep.bump("accepted_by_regex_rejected_by_fancy", 1);
+                if item.gen == "class-syntax" {
+                    // character classes are handed to regex-syntax verbatim: a class the regex
+                    // crate accepts must compile here as well
+                    rep.candidates.push(crate::props::Cand {
+                        prop: cfg.prop.clone(),
+                        what: std::format!("a character class of the common syntax is rejected: {}", rep.status),
+                        op: "build".to_string(),
+                        pattern: item.pattern.clone(),
+                        casei: false,
+                        limit: None,
+                        text: Vec::new(),
+                        pos: 0,
+                        arg: 0,
+                        observed: "ERR".to_string(),
+                        expected: "OK".to_string(),
+                    });
+                    rep.status = "checked".to_string();
+                }
             }
             return;
         }
@@ -1038,7 +1055,8 @@ fn inject_items(p: &str, gen: &str, rng: Option<&mut Rng>, out: &mut Vec<Item>) 
     }
 }
 
-pub const STYLES: [&str; 9] = ["possessive", "named", "backref-k", "backref-rel", "caret-dollar", "hex", "freespace", "comments", "inline-flags"];
+pub const STYLES: [&str; 13] = ["possessive", "named", "backref-k", "backref-rel", "caret-dollar", "hex", "freespace", "comments", "inline-flags",
+    "freespace-comment", "freespace-comments2", "freespace-all", "freespace-all-comments2"];
 
 fn style_named(name: &str) -> Style {
     let mut s = Style::default();
@@ -1050,6 +1068,23 @@ fn style_named(name: &str) -> Style {
         "caret-dollar" => s.caret_dollar = true,
         "hex" => s.hex = true,
         "freespace" => s.freespace = true,
+        "freespace-comment" => {
+            s.freespace = true;
+            s.fs_kind = 1;
+        }
+        "freespace-comments2" => {
+            s.freespace = true;
+            s.fs_kind = 2;
+        }
+        "freespace-all" => {
+            s.freespace = true;
+            s.fs_everywhere = true;
+        }
+        "freespace-all-comments2" => {
+            s.freespace = true;
+            s.fs_kind = 2;
+            s.fs_everywhere = true;
+        }
         "comments" => s.comments = true,
         "inline-flags" => s.inline_flags = true,
         _ => {}
@@ -1150,6 +1185,11 @@ pub fn work_list(cfg: &RunCfg) -> Option<WorkList> {
                     inject_items(w, "alt-order", None, &mut fixed);
                 }
             }
+            for (k, w) in corpus::capture_restore(false).iter().enumerate() {
+                if thorough || k % 2 == 0 {
+                    inject_items(w, "capture-restore", None, &mut fixed);
+                }
+            }
             for (k, w) in corpus::compile_matrix(thorough).iter().enumerate() {
                 // every injection site of every matrix pattern is a lot: quick takes a tenth
                 if thorough || k % 10 == 0 {
@@ -1220,6 +1260,14 @@ pub fn work_list(cfg: &RunCfg) -> Option<WorkList> {
             for w in corpus::compile_matrix(thorough).iter() {
                 fixed.push(Item::new(w, "compile-matrix"));
             }
+            for w in corpus::capture_restore(true).iter() {
+                fixed.push(Item::new(w, "capture-restore"));
+            }
+            for w in corpus::wide_cut().iter() {
+                let mut it = Item::new(w, "wide-cut");
+                it.n_extra = 0;
+                fixed.push(it);
+            }
             let fillers = corpus::exhaustive(&ATOMS_SMALL, &OPS_QUICK, 2);
             for ctx in corpus::contexts(corpus::FEATS_ALL) {
                 for f in &fillers {
@@ -1287,6 +1335,14 @@ pub fn work_list(cfg: &RunCfg) -> Option<WorkList> {
             }
             for w in ["\\bab\\b", "\\Ba", "a\\b.", "(a|ab)(c|bcd)?", "(?i)a[bc]", "(?m)^a$", "(?s).a", "(?x) a b ", "(?U)a+b", "(?P<n>a)(?P<m>b)?", "a*?b", "[^a]\\b", "\\w+\\b\\d?", "(?:a|\\b)+b", "(\\b)a", "\\b(?i:A)\\B"].iter() {
                 fixed.push(Item::new(w, "witness"));
+            }
+            // character classes with escaped and special members (the class text is re-printed
+            // by the parser before it reaches regex-syntax), in wrapped and VM-compiled hosts
+            for c in ["[a\\-c]", "[+\\-*]", "[a\\-]", "[\\-a]", "[a-c\\-e]", "[\\^a]", "[a\\]b]", "[\\[a]", "[a\\\\b]", "[\\&\\&a]", "[a\\~\\~b]", "[a-c&&[^b]]",
+                      "[[:alpha:]]", "[^\\-a]", "[\\x41-\\x43]", "[\\d\\-a]", "[a\\.b]", "[\\n]", "[ \\t]", "[.]", "[*+?]", "[\\w&&[^_]]", "[a-c&&b-d]", "[a\\-c-e]", "[\\+\\-\\*]", "[^\\]]", "[a^]", "[a\\|b]"].iter() {
+                for h in ["X\\b", "\\bX+\\b", "X+", "(?i)X\\B.", "(X)\\b|a"].iter() {
+                    fixed.push(Item::new(&h.replace("X", c), "class-syntax"));
+                }
             }
             let ex = corpus::exhaustive(&ATOMS_COMMON, &OPS_COMMON, if thorough { 4 } else { 3 });
             for p in ex {
